@@ -1,14 +1,16 @@
-"""import_seeds.py Cxx : copy /tmp/seed-Cxx/out/{patch,demo,meta}<i> into /verif/seeded/Cxx-<i>/ (patch.diff, demo.py, meta.json)"""
+"""import_seeds.py Cxx [srcdir [offset]] : copy <srcdir>/{patch,demo,meta}<i> (default /tmp/seed-Cxx/out) into
+/verif/seeded/Cxx-<i+offset>/ (patch.diff, demo.py, meta.json)"""
 import sys, os, json, shutil, glob
 V = os.path.dirname(os.path.dirname(os.path.dirname(os.path.abspath(__file__))))
 pid = sys.argv[1]
-src = "/tmp/seed-%s/out" % pid
+src = sys.argv[2] if len(sys.argv) > 2 else "/tmp/seed-%s/out" % pid
+off = int(sys.argv[3]) if len(sys.argv) > 3 else 0
 for p in sorted(glob.glob(os.path.join(src, "patch*.diff"))):
     i = os.path.basename(p)[5:-5]
-    d = os.path.join(V, "seeded", "%s-%s" % (pid, i)); os.makedirs(d, exist_ok=True)
+    d = os.path.join(V, "seeded", "%s-%d" % (pid, int(i) + off)); os.makedirs(d, exist_ok=True)
     shutil.copy(p, os.path.join(d, "patch.diff"))
     shutil.copy(os.path.join(src, "demo%s.py" % i), os.path.join(d, "demo.py"))
     m = json.load(open(os.path.join(src, "meta%s.json" % i)))
-    m.setdefault("property", pid); m["origin"] = "fresh sub-agent given only the property text and a scratch worktree"
+    m.setdefault("property", pid); m["origin"] = "fresh sub-agent given only the property text and a scratch worktree" + (" (round 4)" if off else "")
     json.dump(m, open(os.path.join(d, "meta.json"), "w"), indent=1)
     print(d)
